@@ -158,14 +158,15 @@ def r6(ctx):
     for c in notifies:
         a0 = fn.key(fn.nodes[c]['args'][0])
         atoms = set((a[0], a[1]) for a in fn.atoms(c))
-        if 'result' in a0:
-            ok1 = fn.needs_one_of(c, [('(state == #%d)' % inv['bs_sendSyn'], True), ('firstRepetition', False)])
+        pst, pres, pfirst = fn.P(0), fn.P(1), fn.P(2)
+        if pres in a0:
+            ok1 = fn.needs_one_of(c, [('(%s == #%d)' % (pst, inv['bs_sendSyn']), True), (pfirst, False)])
             ok2 = ('(this.m_currentRequest == #0)', False) in atoms
-            okarg = a0 == 'result' or (a0.startswith('(((result ==') and a0.endswith(': result)'))
+            okarg = a0 == pres or (a0.startswith('(((%s ==' % pres) and a0.endswith(': %s)' % pres))
             ctx.ob('C02.R6', fn, c, ok1 and ok2 and okarg, 'notify(result)',
                    'only when closed or failed without pending repetition: %s; request present: %s; argument %s' % (ok1, ok2, a0[:80]))
         else:
-            ok = ('(state == #%d)' % inv['bs_noSignal'], True) in atoms
+            ok = ('(%s == #%d)' % (pst, inv['bs_noSignal']), True) in atoms
             ctx.ob('C02.R6', fn, c, ok, 'notify(%s)' % a0, 'drain of pending requests only on signal loss: %s' % ok)
     sw = fb.fn('ebusd::ProtocolHandler::sendAndWait')
     ctx.touch(sw)
